@@ -96,7 +96,32 @@ func c10(args []string) error {
 						f = dyadic{3, 2}
 					}
 					opname, opterm = "BuildBootstrap", "OpBootstrap "+qcoq(f)
-					out = a.BuildBootstrap(f.f())
+					boot := a.BuildBootstrap(f.f())
+					out = boot
+					// the replicate owns its rows: growing it in place (what seqboot --partition does with Concat) appends
+					// to every row and disturbs none
+					n0, s0 := alignContent(boot)
+					if o2, e0 := mkAlign(alpha, n0, s0); len(n0) > 0 && len(s0[0]) > 0 && e0 == nil {
+						out = o2
+						tl := make([]string, len(n0))
+						for k := range tl {
+							tl[k] = "NN"
+						}
+						if tail, e := mkAlign(alpha, n0, tl); e == nil && boot.Concat(tail) == nil {
+							_, s1 := alignContent(boot)
+							okc := len(s1) == len(s0)
+							for k := range s0 {
+								if okc && s1[k] != s0[k]+"NN" {
+									okc = false
+								}
+							}
+							if !okc {
+								if o3, e := mkAlign(alpha, []string{"<the rows of the replicate share storage>"}, []string{"N"}); e == nil {
+									out = o3
+								}
+							}
+						}
+					}
 				case 2:
 					ln := int(seed%int64(L+3)) - 1
 					cons := seed%2 == 0
